@@ -609,3 +609,29 @@ macro_rules! hdr_total {
 hdr_total!(c07_rtp_header_parse_0, 0, 4);
 hdr_total!(c07_rtp_header_parse_11, 11, 4);
 hdr_total!(c07_rtp_header_parse_12, 12, 6);
+
+// ---------------------------------------------------------------- parse_nack_body semantics (RFC 4585 6.2.1)
+/// one FCI entry with a LITERAL bitmask (the list length is then concrete; a symbolic BLP makes the
+/// result Vec's length symbolic and CBMC runs out of memory): the parsed list is exactly PID followed
+/// by PID+i+1 for every set bit i, in order, for every PID (incl. across 65535 -> 0); SSRCs recovered
+fn parse_nack_obligation(blp: u16) {
+    let mut body: [u8; 12] = kani::any();
+    body[10] = (blp >> 8) as u8; body[11] = blp as u8;
+    let n = parse_nack_body(&body).unwrap();
+    assert!(n.sender_ssrc == u32::from_be_bytes([body[0], body[1], body[2], body[3]]));
+    assert!(n.media_ssrc == u32::from_be_bytes([body[4], body[5], body[6], body[7]]));
+    let pid = u16::from_be_bytes([body[8], body[9]]);
+    assert!(n.lost_packets.len() == 1 + blp.count_ones() as usize && n.lost_packets[0] == pid);
+    let mut k = 1; let mut bit = 0u16;
+    while bit < 16 { if (blp >> bit) & 1 == 1 { assert!(n.lost_packets[k] == pid.wrapping_add(bit + 1)); k += 1; } bit += 1; }
+    core::mem::forget(n);
+}
+#[kani::proof]
+#[kani::unwind(19)]
+fn c15_parse_nack_blp_top_bit() { parse_nack_obligation(0x8000); }
+#[kani::proof]
+#[kani::unwind(19)]
+fn c15_parse_nack_blp_all_bits() { parse_nack_obligation(0xFFFF); }
+#[kani::proof]
+#[kani::unwind(19)]
+fn c15_parse_nack_blp_low_bit() { parse_nack_obligation(0x0001); }
